@@ -192,6 +192,7 @@ func checkC12(c *Ctx) {
 		}
 	}
 	checkTypeFuncs(c)
+	checkST7(c)
 	// required columns have no absence guard: relies on "no page without values" (WH-empty, shared with C06)
 	runWHEmpty(c, "WH-empty")
 	r.floor("ST/stats-types", 16+2, "alltypes instantiates all 16 stats templates; the other packages add more")
@@ -855,6 +856,9 @@ func checkST6(c *Ctx, st *statsType, key string) {
 							continue
 						}
 						n++
+						if fieldOfLoad(call.Call.Args[idx]) == maxDefFld {
+							continue // copied from an existing stats object of the same column
+						}
 						arg, ok := call.Call.Args[idx].(*ssa.Call)
 						if !ok || arg.Call.StaticCallee() == nil || len(arg.Call.Args) != 1 {
 							okAll, why = false, "stats constructor argument at "+u.Pos(call.Pos())+" is not a max-definition-level computation"
@@ -1155,4 +1159,44 @@ func perValueSets(k *types.Var, V ssa.Value, base ssa.Value) bool {
 	}
 	visit(E, true)
 	return ok
+}
+
+// ST7: what the accumulators report reaches the page header unchanged — every store into a schema.Statistics field is
+// directly the result of the corresponding method of the Stats value of that page (no truncation, no substitution).
+func checkST7(c *Ctx) {
+	r, u := c.R, c.U
+	want := map[string]string{"MinValue": "Min", "MaxValue": "Max", "NullCount": "NullCount", "DistinctCount": "DistinctCount", "Min": "", "Max": ""}
+	n := 0
+	for name, method := range want {
+		fld := schemaField(u, "Statistics", name)
+		if fld == nil {
+			r.failf("schema.Statistics.%s not found", name)
+			continue
+		}
+		ctor, other := storesTo(u, fld)
+		for _, st := range append(ctor, other...) {
+			if u.pkgPathOf(st.Parent()) == schPath {
+				continue
+			}
+			n++
+			key := fmt.Sprintf("%s Statistics.%s", u.FnName(st.Parent()), name)
+			pos := u.Pos(st.Pos())
+			if method == "" {
+				r.bad("ST7", key, pos, "the deprecated min/max fields (signed-byte order) are written; C12's order is that of min_value/max_value")
+				continue
+			}
+			call, ok := st.Val.(*ssa.Call)
+			if !ok || !call.Call.IsInvoke() || call.Call.Method.Name() != method {
+				r.bad("ST7", key, pos, fmt.Sprintf("the page header's %s is not the value returned by the page's Stats.%s(): it is %s — a transformed bound (e.g. a truncated max) is no longer a bound", name, method, symExpr(st.Val, 0)))
+				continue
+			}
+			if _, isParam := call.Call.Value.(*ssa.Parameter); !isParam {
+				r.undecided("ST7", key, pos, "the Stats value is not the page writer's parameter")
+				continue
+			}
+			r.ok("ST7", key, pos, name+" = stats."+method+"() of the page being written, unchanged")
+		}
+	}
+	r.count("ST7/header-stat-stores", n)
+	r.floor("ST7/header-stat-stores", 4, "NullCount, DistinctCount, MinValue, MaxValue in WritePageHeader")
 }
